@@ -10,7 +10,7 @@ RULE = ("masses {0, 1e-3, 1, 750, 1800, 5000, 1e5} + random in [0,1e5] x peak co
         "against the exact model (ratio law, sum, m/z ladder); masses up to 1e9 x counts up to 300 (length, sum, "
         "spacing, range only); thresholds on a grid in [0,1] plus neighbours of switching points (minimality vs the "
         "model, monotonicity on the implementation itself); class = (regime, n bucket, charge sign, outcome)")
-MODULES = ["Props.C15"]
+MODULES = ["Props.C15", "Props.C15Float"]
 NS = Fraction(10033548378, 10 ** 10)
 
 
@@ -68,8 +68,10 @@ def run(r: Run):
             problems.append(f"length {len(peaks)} != {n}")
         if n >= 1:
             tot = sum(p[1] for p in peaks)
-            if not close(tot, Fraction(1), rel=1e-9):
-                problems.append(f"intensities sum to {float(tot)}")
+            # Props/C15Float.lean, flDivNormalize_sum_f64: under the standard rounding model (u = 2^-53) the exact sum
+            # of at most 300 computed intensities `term / total` is within 1e-13 of 1
+            if abs(tot - 1) > (Fraction(1, 10 ** 13) if n <= 300 else Fraction(1, 10 ** 9)):
+                problems.append(f"intensities sum to 1 {'+' if tot > 1 else '-'} {float(abs(tot - 1)):.3e}")
             if any(p[1] < 0 for p in peaks):
                 problems.append("negative intensity")
             exp0 = (m + z * Fraction(1007276, 10 ** 6)) / abs(z)
